@@ -21,6 +21,7 @@ func init() {
 		ID:      "C07",
 		Arch386: true,
 		Explanation: "T18 every call into go-sev-guest's certificate-table parser (CertTable.Unmarshal, ReportCertsToProto) is dominated by the nil edge of extractsev.CheckCertTable over bytes of the same input (F24). " +
+			"T21 a difference of two non-constant integers that is unsigned, or used as an index / slice bound / allocation size, is taken only where the subtrahend is known to be no larger than the minuend (dominating comparison of the same values, transitively, shifted form, by construction, helper postcondition, established by every caller, or — signed — every use behind diff ≥ 0); named value exceptions by package and operand shape. " +
 			"T19 every single-result type assertion in V is on a value whose dynamic type is fixed by construction (proto.Clone result, interface made in the function). " +
 			"T17 (= C09.R1/R4) the verification closure writes no state that outlives the call, so the outcome for an input does not depend on earlier inputs. " +
 			"Closure V = repo functions reachable from the relying-party entry points (verify.Endorsement[Proto], the SNP validator closures, extract.Attestation / Endorsement, extractsev.From*, SevPolicy, TdxPolicy, SevValidate, TdxValidate, Inspect*, MaskOptions.Mask, CryptoAgileLog.Unmarshal, SP800155Event3.UnmarshalFromBytes, exel.Locate). " +
